@@ -64,6 +64,10 @@ def run(ctx):
     r13_member_numbering(ctx)
     r14_text_pickles(ctx)
     r15_picklable_state(ctx, fam)
+    # "reading never modifies the data held by the source": the in-place filters (Scale, Impute) only ever see containers Mutable made for this read
+    from . import c11
+    ctx.rule("C04.R16", "Mutable hands the in-place filters a private container for every interaction, on every path (a cached / in-memory source's own rows are never written)")
+    c11.mutable_private_containers(ctx, "C04.R16")
 
 
 DRAWS = {"choice", "choicew", "random", "randoms", "randint", "randints", "shuffle", "gauss", "gausses"}
@@ -739,6 +743,12 @@ def r3_targets(ctx):
         out.append((PR, qual, m.func(PR, qual)))
     out.append(("coba/evaluators/sequential.py", "RejectionCB.evaluate", m.func("coba/evaluators/sequential.py", "RejectionCB.evaluate")))
     out.append(("coba/evaluators/sequential.py", "SequentialCB._results", m.func("coba/evaluators/sequential.py", "SequentialCB._results")))
+    # readers defined inside evaluator methods (SequentialIGL wraps the environment in a local class whose read() rewrites every interaction)
+    for (r, qual), fn in sorted(m.functions.items()):
+        if r == "coba/evaluators/sequential.py" and qual.count(".") == 1:
+            for g in ast.walk(fn):
+                if isinstance(g, ast.FunctionDef) and g is not fn and g.name == "read":
+                    out.append((r, f"{qual}.<locals>.read", g))
     if ctx.thorough:
         for rel in ("coba/environments/synthetics.py", "coba/environments/supervised.py", "coba/environments/results.py",
                     "coba/environments/serialized.py", "coba/environments/openml.py", "coba/evaluators/offline.py"):
@@ -1202,6 +1212,22 @@ def r15_picklable_state(ctx, fam, rule="C04.R15"):
                 ok = "__reduce__" in hooks or "__reduce_ex__" in hooks or {"__getstate__", "__setstate__"} <= set(hooks)
                 ctx.ob(rule, c.rel, f"{c.qual}.{name}", st, "the class stores a closure, so it defines how it is pickled", ok, detail={"hooks": hooks})
     ctx.floor(rule, "closure-valued attributes in pipeline classes", n, 2)
+    densify_replay(ctx, rule)
+
+
+def densify_replay(ctx, rule):
+    """state that abbreviates a generator by "how many values were drawn" must replay exactly that many draws, BEFORE the stored entries are put back
+    (looking an existing key up never calls the default factory)."""
+    de = ctx.model.cls("coba/environments/filters.py", "Densify")
+    ss = de.methods.get("__setstate__")
+    if ss is None:
+        return
+    replays = [lp for lp in ast.walk(ss) if isinstance(lp, ast.For) and any(isinstance(c, ast.Call) and call_tail(c) == "default_factory" for c in ast.walk(lp))]
+    names = {a.id for st in walk_shallow(ss) if isinstance(st, ast.Assign) for t in st.targets for a in ast.walk(t) if isinstance(a, ast.Name)}
+    ok = len(replays) == 1 and (unparse(replays[0].iter) in names or (isinstance(replays[0].iter, ast.Call) and call_name(replays[0].iter) == "range" and len(replays[0].iter.args) == 1
+                                and isinstance(replays[0].iter.args[0], ast.Call) and call_name(replays[0].iter.args[0]) == "len" and unparse(replays[0].iter.args[0].args[0]) in names))
+    ctx.ob(rule, "coba/environments/filters.py", "Densify.__setstate__", replays[0] if replays else ss, "the restored position generator is advanced once for every position that was handed out "
+           "(one call of the table's default factory per stored key)", ok, detail={"replay over": unparse(replays[0].iter) if replays else None}, stmt="Densify replay count")
 
 
 def _drop_methods(tree, cname, members):
@@ -1220,6 +1246,7 @@ def _bounded_memo(tree):
 
 
 CONTROLS = [
+    ("Densify replays only the started round", "coba/environments/filters.py", M.replace_expr("Densify.__setstate__", "lookup", "range(len(lookup) % self._n_feats)", nth=1), "C04.R15"),
     ("Densify without pickling hooks", "coba/environments/filters.py", lambda tree: _drop_methods(tree, "Densify", ("__getstate__", "__setstate__")), "C04.R15"),
     ("rewards pickle as unchecked repr text", "coba/primitives.py", M.chain(M.replace_expr("DiscreteReward.__getstate__", "_as_literal((self._state, self._default))", "repr((self._state, self._default))"),
         M.replace_expr("DiscreteReward.__setstate__", "_of_literal(args)", "literal_eval(args)")), "C04.R14"),
